@@ -250,7 +250,7 @@ def hyp_cases(draw, tier):
     explicit = flavour == "str"
     opts = gen.node_opts(explicit_ids=explicit, kinds=typed, meta=True)
     spec = draw(gen.forest_specs(max_nodes=12, max_depth=4, max_width=4, min_nodes=1, alphabet=gen_ops.LABELS, opts=opts))
-    spec_t = draw(gen.forest_specs(max_nodes=8, max_depth=3, max_width=3, alphabet=gen_ops.LABELS + ["t1", "t2"], opts=gen.node_opts(explicit_ids=explicit, kinds=typed)))
+    spec_t = draw(gen.forest_specs(max_nodes=8, max_depth=3, max_width=3, min_nodes=draw(st.sampled_from([0, 1, 3])), alphabet=gen_ops.LABELS + ["t1", "t2"], opts=gen.node_opts(explicit_ids=explicit, kinds=typed)))
     if explicit:
         gen.localize_ids(spec, gen_ops.LABELS)
         gen.fix_sibling_ids(spec)
@@ -265,12 +265,14 @@ def hyp_cases(draw, tier):
     else:
         eq_later = None
     B = gen_ops.before_json(valid_only=True)
-    tri = st.sampled_from([None, True, False])
+    tri = st.sampled_from([None, True, True, False])
+    deep2 = st.sampled_from([True, True, False])  # (st.booleans() is drawn as False most of the time)
     copy = draw(st.one_of(
         st.just(["tree.copy"]),
         st.tuples(st.just("node.copy"), gen_ops.REF, st.booleans()).map(list),
         st.tuples(st.just("tree2_copy_to"), gen_ops.PREF, tri).map(list),
-        st.tuples(st.just("copy_from2"), gen_ops.REF, gen_ops.PREF, st.sampled_from([True, True, False]), B, st.booleans()).map(list),
+        st.tuples(st.just("copy_from2"), gen_ops.REF, gen_ops.PREF, st.sampled_from([True, True, False]), B, deep2).map(list),
+        st.tuples(st.just("copy_from2"), gen_ops.REF, gen_ops.REF, st.just(True), st.none(), st.just(True)).map(list),  # deep copy below a node
         st.tuples(st.just("add_node"), gen_ops.PREF, st.just(1), gen_ops.REF, tri, B).map(list),
         st.tuples(st.just("add_tree"), gen_ops.PREF, B, tri).map(list),
         st.tuples(st.just("shortcut_tree"), st.sampled_from(["append_child", "prepend_child", "prepend_sibling", "append_sibling"]), gen_ops.REF, tri).map(list),
